@@ -12,6 +12,7 @@ RULE = ('(a) scripted server peer: the two server-to-client handshake messages (
         'info on the control connection) cut at an enumerated byte offset with FIN or RST, control connection refused; (b) real '
         'server: unknown context id, server SIGKILLed / SIGTERMed at an enumerated line of its handling of this client; (c) process '
         'kind: child killed at an enumerated line before it reported its identity, spawn failure; one-shot and persistent classes; '
+        '(d) the server process worker (spawn_server): its child killed at every line of its start-up; '
         'plus seeded random schedules.')
 ASSUMPTIONS = ['hang bound: the constructor must return or raise within 600 simulated seconds (it has no timeout parameter)']
 
@@ -133,6 +134,8 @@ class Run:
         from simos.sockshim import SocketFacade
         s, c = self.sim, self.case
         kind, mode = c['kind'], c['mode']
+        if kind == 'server':
+            return self.root_server()
         host = None
         srv = None
         before = set(p.pid for p in s.procs.values() if p.alive)
@@ -192,6 +195,31 @@ class Run:
             self.viol('id-names-started-child', f'id-is-not-a-started-child:{tag}:{"parent-pid" if p is me else "unknown-pid"}',
                       {'id': list(map(str, wid)), 'started': [q.name for q in started]})
 
+    def root_server(self):
+        """the server process is itself a process worker (spawn_server -> RemoteServerProcess): its construction must return or
+        raise whatever happens to the child while it starts"""
+        s, c = self.sim, self.case
+        s.tlog('ctor-call')
+        r = lib.call_with_deadline(lib.start_server, 600.0)
+        s.tlog('ctor-done', status=r[0])
+        self.info['ctor'] = [r[0], type(r[1]).__name__ if r[0] == 'exc' else None]
+        ch = [t for t in s.threads if t.role == 'child-main:ProcessWorker._run']
+        self.info['child_lines'] = ch[0].nline if ch else 0
+        self.info['child_name'] = ch[0].name if ch else None
+        if r[0] == 'hung':
+            bl = [b for b in s.blocked_report() if b['role'].startswith('call_with_deadline')]
+            fr = bl[-1]['frames'][0].split(':')[0] if bl and bl[-1]['frames'] else '?'
+            self.viol('constructor-returns', f'constructor-hangs:server-process:blocked@{fr}', s.blocked_report()[:6])
+            return
+        if r[0] == 'ok':
+            srv = r[1]
+            p = s.procs.get(srv.pid)
+            if p is not None and p.alive and not c.get('fault'):
+                # untouched server: it must be usable
+                rr = lib.call_with_deadline(lambda: lib.make_worker('remote', 't_return', kwargs={'v': 5}, host=srv.addr, probe=False), 300.0)
+                if rr[0] != 'ok':
+                    self.viol('constructor-returns', f'fresh-server-unusable:{rr[0]}')
+
     def obs_summary(self):
         d = {'info': self.info}
         if self.case.get('census'):
@@ -230,6 +258,17 @@ def plan(ctx):
         for si in (1, 2):
             cases.append(mk_case(ctx, kind, 'spawn-fails', len(cases), spawn_index=si if lib.is_remote(kind) else 1, tag='spawn'))
     ctx.run(cases, 'scripted-peer-and-discrete-failures')
+    # (a2) the server process worker itself: its child killed at every line it executes before the constructor returns
+    r0 = ctx.run([mk_case(ctx, 'server', 'real', 0, tag='server-census')], 'server-census')
+    inf0 = ((r0[0].get('obs') or {}).get('info') or {})
+    nl = int(inf0.get('child_lines') or 120)
+    cname = inf0.get('child_name') or 'm.0.0'
+    sc = []
+    for k in range(1, nl + 8, 3 if quick else 1):
+        for fk in ('sigkill', 'sigterm'):
+            sc.append(mk_case(ctx, 'server', 'kill-during-ctor', len(sc), tag='server-kill',
+                              fault={'kind': fk, 'thread': cname, 'nline': k}, policy={'kind': 'directed', 'p_stay': rng.choice([0.0, 0.5, 0.9])}))
+    ctx.run(sc, 'server-process-killed-at-each-line-of-its-start-up')
     # (b)/(c) census: lines of the server main thread while it handles the client / of the child before it reports
     cen = []
     for kind in ('process', 'pprocess', 'remote', 'premote'):
